@@ -14,7 +14,8 @@ RULE = ("one TransitSender + one TransitReceiver with the derived key; 1-3 addre
         "refused, never answering), listener on/off per side, real transit relay or none; extra "
         "contenders: strangers with another key (real Transit objects), garbage talkers, peers that "
         "send only the key-independent handshake prefix and stall, a key holder that sends the sender "
-        "handshake but never `go`; handshakes advance byte by byte in scheduler-chosen order across all "
+        "handshake but never `go`, a key holder whose sender handshake arrives in two pieces followed by "
+        "`nevermind` or by bytes that are not `go`; handshakes advance byte by byte in scheduler-chosen order across all "
         "live connections. Non-trivial = at least 2 connections contended; distinct = (config, "
         "contenders, number of links, outcome, which path won).")
 ASSUMPTIONS = ["virtual time: the deadline clause is decided on the simulated clock"]
@@ -97,7 +98,8 @@ def run_case(spec):
     budget = rng.randint(0, 4) if ports or relay else 0
 
     def add_stranger():
-        kind = rng.choice(["otherkey-sender", "otherkey-receiver", "garbage", "prefix-stall", "no-go", "early-go"])
+        kind = rng.choice(["otherkey-sender", "otherkey-receiver", "garbage", "prefix-stall", "no-go", "early-go",
+                           "keyholder-nevermind", "keyholder-wrong-go"])
         target = rng.choice(sorted(ports)) if ports else None
         strangers.append((kind, target))
         if target is None:
@@ -117,6 +119,19 @@ def run_case(spec):
                 p = Garbage(data)
             elif kind == "prefix-stall":
                 p = Garbage(rng.choice([b"transit ", b"transit sender ", b"transit receiver ", b"t"]))
+            elif kind in ("keyholder-nevermind", "keyholder-wrong-go") and target == "R":
+                # a key holder's connection that the sender side gives up: the handshake arrives in two
+                # pieces, the second one together with what follows ("nevermind", or something that is not "go")
+                hs_ = transit.build_sender_handshake(key)
+                k = rng.randint(1, len(hs_) - 1)
+                tail = b"nevermind\n" if kind == "keyholder-nevermind" else rng.choice([b"no\n", b"GO\n", b"go ", rng.randbytes(3), b"g", b"nevermind"])
+                p = Garbage(hs_[:k], hs_[k:] + tail)
+            elif kind in ("keyholder-nevermind", "keyholder-wrong-go"):
+                hs_ = transit.build_receiver_handshake(key)
+                k = rng.randint(1, len(hs_) - 1)
+                # towards the sender: a receiver handshake in two pieces that never completes (a complete one
+                # would make this stranger a legitimate second receiver, which the sender may pick)
+                p = Garbage(hs_[:k], hs_[k:-1])
             elif kind == "no-go":
                 # a key holder talking to the *receiver*: correct sender handshake, then silence
                 p = Garbage(transit.build_sender_handshake(key) if target == "R" else transit.build_receiver_handshake(key)[:-3])
